@@ -147,6 +147,25 @@ def check_c08(tier):
     return rep.finish()
 
 
+def light_sec_tx(r):
+    """A coding transcript whose protein is rich in Gly / Ala / Ser and has two or three Sec codons a few residues apart: a
+    Sec-truncated peptide can then be long enough and still lighter than --min-mw while the truncation at the next Sec is valid."""
+    n = r.randrange(18, 30)
+    aa = ['M'] + [r.choice('GGGAAS') if r.random() < 0.75 else r.choice('KRDELTVPQ') for _ in range(n - 1)]
+    first = r.randrange(3, n - 10)
+    idxs = [first]
+    for _ in range(r.choice([1, 2])):
+        nxt = idxs[-1] + r.randrange(2, 7)
+        if nxt < n - 1:
+            idxs.append(nxt)
+    cds = refgen.encode(r, ''.join(aa))
+    for i in idxs:
+        cds = cds[:3 * i] + 'TGA' + cds[3 * i + 3:]; aa[i] = 'U'
+    u5 = refgen.rand_dna(r, r.randrange(0, 10)); u3 = refgen.rand_dna(r, r.randrange(4, 16))
+    seq = u5 + cds + r.choice(refgen.STOPS) + u3
+    return seq, len(u5), len(u5) + len(cds) + 3, [len(u5) + 3 * i for i in idxs], ''.join(aa)
+
+
 def check_c09(tier):
     rep = report.Report('C09', tier)
     rep.cov['rule'] = ("random coding references (0-2 annotated Sec codons, W-rich proteins, cds_start_NF / mRNA_end_NF, both strands, "
@@ -159,9 +178,13 @@ def check_c09(tier):
     for i in range(n):
         b = refgen.Builder(r)
         sect_endnf = False
+        light = r.random() < 0.15
         for k in range(r.randrange(1, 4)):
             strand = r.choice([1, -1])
-            if r.random() < 0.85:
+            if light and k == 0:
+                seq, cs, ce, secs, prot = light_sec_tx(r)
+                b.add_gene(seq, strand, r.randrange(1, 3), True, cs, ce, secs, (), prot)
+            elif r.random() < 0.85:
                 tags = []
                 nsec = r.choice([0, 1, 1, 2])
                 seq, cs, ce, secs, prot = refgen.make_coding_tx_seq(r, r.randrange(10, 28), r.randrange(0, 10), r.randrange(4, 16), sec=nsec)
@@ -181,6 +204,10 @@ def check_c09(tier):
         paths = ref.write(d)
         cfg = cvgen.rand_cfg(r, rules=('trypsin', 'trypsin', 'lysc', 'asp-n', 'glutamyl endopeptidase'))
         flags = r.choice([(True, True), (True, False), (False, True)])
+        if light:
+            cfg['min_mw'] = r.choice(['400.00005', '500.00005', '700.00005']); cfg['min_len'] = r.randrange(3, 8)
+            cfg['max_len'] = max(cfg['max_len'], cfg['min_len'] + 6)
+            flags = (True, r.random() < 0.3)
         a = dict(paths); a.update(cvgen.cli_cfg(cfg))
         a.update(output_path=os.path.join(d, 'out.fasta'), selenocysteine_termination=flags[0], w2f_reassignment=flags[1])
         jl.append(dict(cmd='callAltTranslation', args=a))
